@@ -23,8 +23,14 @@ type cop struct {
 func (o cop) String() string {
 	switch o.K {
 	case 'G':
+		if o.Key > 25 {
+			return fmt.Sprintf("G(k%d)", o.Key)
+		}
 		return fmt.Sprintf("G(%c)", 'a'+o.Key)
 	case 'R':
+		if o.Key > 25 {
+			return fmt.Sprintf("R(k%d)", o.Key)
+		}
 		return fmt.Sprintf("R(%c)", 'a'+o.Key)
 	}
 	return "Clear"
@@ -104,6 +110,7 @@ func job(sc scen, cfg vsched.Config) sdrv.Job {
 		inflight := map[int]int{}
 		createdOK := map[int]int{} // value -> key
 		deleted := map[int]int{}   // value -> times deleted
+		inPrefix := false
 		evictOf := map[int]*[]kv{} // thread id -> delete callbacks observed during its current call (callbacks run on the calling thread)
 		c, err := lru.NewCache[int, int](sc.capa, func(k int) (int, error) {
 			creators[vsched.ThreadID()]++
@@ -111,8 +118,11 @@ func job(sc scen, cfg vsched.Config) sdrv.Job {
 			if inflight[k] > 1 {
 				obs.fail("single-flight", "two creations for key %c are in progress at the same time", 'a'+k)
 			}
-			vsched.Point(vsched.KEnv, "create", nil)
-			fail := vsched.Choose("create-fails", 2, true) == 1
+			fail := false
+			if !inPrefix { // the sequential prefix only builds the starting state: its creations succeed, nothing is explored there
+				vsched.Point(vsched.KEnv, "create", nil)
+				fail = vsched.Choose("create-fails", 2, true) == 1
+			}
 			inflight[k]--
 			if fail {
 				vsched.Note("create(%c) fails", 'a'+k)
@@ -190,7 +200,9 @@ func job(sc scen, cfg vsched.Config) sdrv.Job {
 				leftWithoutDelete(fmt.Sprintf("t%d after %v", t, o))
 			}
 		}
+		inPrefix = true
 		runOps(8, sc.prefix)
+		inPrefix = false
 		for t, prog := range sc.progs {
 			t, prog := t, prog
 			vsched.GoNamed(fmt.Sprintf("t%d", t), func() {
@@ -423,6 +435,15 @@ func main() {
 		add(2, append(progsOf(alpha3, 1), progsOf(alpha3, 2)...), []int{1, 2, 3}, 3)
 		add(3, progsOf(alpha3, 1), []int{1, 2, 3}, 3)
 		add(3, upTo2, []int{1, 2}, 2)
+	}
+	// a large cache (70 resident values; anything that works in batches has to get past its batch size): Clear against a
+	// hit on the oldest / newest value, a Remove and a miss
+	var fill []cop
+	for k := 0; k < 70; k++ {
+		fill = append(fill, cop{'G', k})
+	}
+	for _, other := range []cop{{'G', 0}, {'G', 69}, {'R', 3}, {'G', 100}} {
+		jobs = append(jobs, job(scen{70, [][]cop{{{'C', 0}}, {other}}, fill}, vsched.Config{P: 2, Preempt: fine, MaxSteps: 50000}))
 	}
 	budget := 4 * time.Minute
 	if run.Thorough() {
